@@ -49,7 +49,7 @@ fn c13_effective_window() {
 /// Fully symbolic f64 smoothed RTT (fractions, negatives after Kalman overshoot, huge values).
 #[kani::proof]
 fn c13_effective_window_f64() {
-    let c = any_conn(1, Sym { rtt: 2, score_floats: false });
+    let c = any_conn(1, Sym { rtt: 2, score_floats: false, leaf_domain: false });
     let ceiling = any_ceiling();
     let (x, _, _, _) = c.rtt.kalman_rtt.vh_parts();
     let e = c.effective_stall_stale_ms(ceiling);
